@@ -373,7 +373,7 @@ PROPERTY_INFO = {
     "C01": {"level": "other",
             "text": "cfg_parse_internal() refines the reference token automaton (spec/grammar_spec.h) - proved for every state / token / flag word / callee verdict by the base+step units of the hand-applied loop-invariant rule, every nesting depth through the nested-call contract; "
                     "cfg_setopt() arms (string, parse callbacks, section arm with title merge / duplicate refusal / per-instance copies), cfg_init_defaults (14 option kinds), cfg_addopt, cfg_getopt_leaf, cfg_init, cfg_parse_fp/buf/file checked against their contracts on bounded shapes.",
-            "note": STEP_NOTE + "Not decided: end of input inside a section body (the nested parse answers EOF for '}' and for real end of input alike), the composition scanner->parser->getters (argued in DESIGN 5.C01)."},
+            "note": STEP_NOTE + "End of input inside a section body is part of the reference automaton since fix e5f6c41 (rejected with a diagnostic). Not decided: the composition scanner->parser->getters (argued in DESIGN 5.C01)."},
     "C02": {"level": "other",
             "text": "Every unit of every property runs with CBMC's pointer, bounds, overflow, double-free and use-after-free obligations on the real code; in addition: the scanner tables never leave their bounds and always advance (L-DFA), the default ECHO rule (stdout) is unreachable, every returned token carries a non-NULL text, the scratch buffer stays well-formed through growth, termination of every bounded loop (unwinding assertions), abort()/exit() sites are finding units.",
             "note": "Memory safety inside flex's buffer management and driver loop is assumed; stack usage is decided only as 'recursion depth is unbounded' (recorded finding); string walks are bounded (see units)."},
@@ -394,13 +394,13 @@ PROPERTY_INFO = {
             "text": "Parser: in every state and for every token a rejection is reported in the same iteration through the current context's error function, or has one of the silent causes (callback veto, allocation failure); accepted steps deliver no diagnostic; sections inherit file/line/error function. Scanner: every rule action advances cfg->line by exactly the number of newline bytes in its token (all forms), the error token is returned exactly with a diagnostic; include / end-of-include save and restore file name and line; cfg_parse_fp maps rejection to the parse-error code.",
             "note": STEP_NOTE + "The text of messages is not checked."},
     "C07": {"level": "other",
-            "text": "Ownership contracts with CBMC's leak / double-free / use-after-free obligations on closed harnesses: cfg_free_value (every type, callbacks), cfg_free, cfg_free_opt_array (through the copy units), cfg_addval, cfg_opt_setcomment, cfg_opt_setmulti (both outcomes), cfg_opt_rmnsec/rmtsec (shared search path detached, slot released), cfg_setopt pointer and section arms, call_function, every exit of one parser iteration (pending annotation, title, call arguments), file handles of include / end-of-include / cfg_parse / cfg_parse_buf / default parsing (ghost open-set).",
+            "text": "Ownership contracts with CBMC's leak / double-free / use-after-free obligations on closed harnesses: cfg_free_value (every type, callbacks), cfg_free, cfg_free_opt_array (through the copy units), cfg_addval, cfg_opt_setcomment, cfg_opt_setmulti (both outcomes), cfg_opt_rmnsec/rmtsec (shared search path detached, slot released), cfg_setopt pointer and section arms, call_function, every exit of one parser iteration and every continuing one (loop-head ownership: once the pending annotation, the pending title and the collected call arguments are released nothing is left allocated), release of the replaced string in both string setters, release of the half-built instance on every failure path of the section arm, file handles of include / end-of-include / cfg_parse / cfg_parse_buf / default parsing (ghost open-set).",
             "note": "All shapes bounded (<= 3 values, one nesting level; nested cfg_free is a contract carrier). " + STEP_NOTE},
     "C08": {"level": "other",
             "text": "Reset invariant: cfg_scan_fp_end() leaves the scanner quiescent (top-level context, no scratch buffer, one source popped) from every state; cfg_parse_fp / cfg_parse_buf / cfg_parse / default parsing push and pop exactly one source on every outcome; a failed include costs no include level; cfg_free(root) tears the scanner down - checked with every static of confuse.c arbitrary (no hidden history); errno independence of conversions (C04).",
             "note": "The relational claim (same result as in a fresh process) follows from the reset invariant plus determinism (argued). A parse aborted inside an included file leaves the include entry (recorded in DESIGN 7). flex's buffer stack is an assumed contract."},
     "C09": {"level": "other",
-            "text": "Every setter / list / bulk / section add-remove function is checked against the abstract store on every well-formed option state with <= 2 (quick) / 3 (thorough) values: whole-view postconditions (other values keep place and content), wrong type / illegal index / unknown name fail without effect.",
+            "text": "Every setter / list / bulk / section add-remove function is checked against the abstract store on every well-formed option state with <= 2 (quick) / 3 (thorough) values: whole-view postconditions (other values keep place and content), wrong type / illegal index / unknown name fail without effect. The by-name layer (30 wrappers) is the opt-level operation on the option the name resolves to (resolver and opt-level mutators by contract). Without allocation failure a legal call must succeed and the value must be stored (must-succeed twins); with it, a call that reports failure has stored nothing.",
             "note": "Operation sequences are covered as 'from every well-formed state, one call' (each call re-establishes well-formedness); flag words are literal representatives of every RESET/LIST/MULTI combination."},
     "C10": {"level": "other",
             "text": "Failure frames: for each refusing call (bulk set with a failing element at every position, vetoed by-name setters, wrong type / illegal index, unconvertible text on a set scalar, removing a missing section, duplicate title) the option is compared bit-for-bit with a snapshot (values, count, order, annotation pointer, flags).",
@@ -421,8 +421,8 @@ PROPERTY_INFO = {
             "text": "Scanner: each comment style yields exactly one comment token with the trimmed text and no line drift, comment forms exist only at top level (L-DFA). Grammar: the reference automaton makes a comment token transparent in every state; proved for the name state and the skipper's waiting states, the other states are a recorded finding; the pending annotation is copied, attached right after the first stored value and released on every exit; cfg_opt_setcomment and the annotation line of the printer under contract.",
             "note": STEP_NOTE},
     "C16": {"level": "other",
-            "text": "cfg_dupopt_array: the copy is fresh, every owned string a private copy (NULL iff NULL), nested declarations copied not shared, scalars and callbacks carried over, the source untouched also when the copy fails half-way; cfg_free_opt_array releases exactly the copy; cfg_init works on the copy; the section arm gives every instance its own copy of the sub-options and private name / title / file name; setters store private copies.",
-            "note": "Bounded(<= 2 options, one nesting level). 'Interleavings of two contexts' are covered as: no function writes outside the objects reachable from its own arguments (frames of the store units), not as a two-run experiment."},
+            "text": "cfg_dupopt_array: the copy is fresh, every owned string a private copy (NULL iff NULL), nested declarations copied not shared, scalars and callbacks carried over, the source untouched also when the copy fails half-way; cfg_free_opt_array releases exactly the copy; cfg_init works on the copy; the section arm gives every instance its own copy of the sub-options and private name / title / file name; setters store private copies. cfg_numopts / cfg_getnopt: function contracts with loop contracts (invariant, frame, variant) enforced by goto-instrument --dfcc --apply-loop-contracts for option arrays of every length up to 1024 (z3), cfg_num against contract::cfg_numopts (--replace-call-with-contract).",
+            "note": "Bounded(<= 2 options, one nesting level) except the option-array loops. 'Interleavings of two contexts' are covered as: no function writes outside the objects reachable from its own arguments (frames of the store units), not as a two-run experiment."},
     "C17": {"level": "other",
             "text": "cfg_searchpath (extracted copy, recursion by contract): absolute names bypass the list and must be regular files, relative names are taken from the oldest directory first, directories / missing files never match, results fresh; cfg_make_fullpath; cfg_tilde_expand for every name up to 4/6 bytes with the passwd database as ghost (exact account name, NUL-terminated; unknown user unchanged) and every static arbitrary (no cached answers); cfg_add_searchpath prepends; cfg_parse and cfg_lexer_include resolve the same way.",
             "note": "The real file system and passwd database are assumed contracts."},
